@@ -23,8 +23,15 @@ PROP = Property(
                   "extracted text of mithril-aggregator MithrilSignerRegistrationVerifier::verify: Ok(s) ==> KeyRegWrapper::register accepted, against the round's stake distribution, the request built from the registrant's own key / key "
                   "signature / opcert with KES evolutions = chain's current KES period - opcert start; s.party_id is the id the registration returned; s.stake == stake_distribution[s.party_id]; key and opcert copied from the registrant",
                   ["MithrilSignerRegistrationVerifier::verify"]),
+        VerusUnit("aggregator_leader", "verus/C07/aggregator_leader.tmpl.rs",
+                  "extracted text of the aggregator's registration round: leader register_signer Ok(s) ==> a round is open, it is the round OF THE EPOCH the signer registers for, s is what the registration verifier returned for this "
+                  "signer against the ROUND's stake distribution, s was recorded and saved under the round's epoch, and no registration of that party existed for that epoch; open / close_registration_round set / clear the round; "
+                  "the runner opens the round for the recording epoch (current + 1) with the stake distribution stored under THAT epoch",
+                  ["aggregator MithrilSignerRegistrationLeader::register_signer", "aggregator MithrilSignerRegistrationLeader::{open_registration_round, close_registration_round}",
+                   "aggregator AggregatorRunner::open_signer_registration_round"]),
     ],
-    replays=[dict(crate="mithril-common", file=KC, module="replays/c07_registration.rs"),
+    replays=[dict(crate="mithril-aggregator", file="mithril-aggregator/src/services/signer_registration/leader.rs", module="replays/c07_leader.rs"),
+             dict(crate="mithril-common", file=KC, module="replays/c07_registration.rs"),
              dict(crate="mithril-stm", file="mithril-stm/src/protocol/key_registration/register.rs", module="replays/c07_stm_registration.rs")],
     assumptions=[
         "aggregator_verifier rewrites: async/.await removed; the stake-distribution iterator expression, the `match party_id.as_str()` on string patterns, `unwrap_or_default() - start` on KES periods and Option/String clones -> contract fns; .with_context removed (the stake lookup's `.with_context(..)?` becomes a match returning Err); strip_cfg future_snark",
